@@ -310,7 +310,7 @@ fn part_iii(ctx: &mut Ctx) {
 }
 
 pub const ATOMS: &[&str] = &[
-    "null", "true", "false", "0", "1", "2", "-1", "1.5", "10000", "\"\"", "\"a\"", "\"é\"", "\"aé😃\"",
+    "null", "true", "false", "0", "1", "2", "-1", "1.5", "10000", "9007199254740992", "\"\"", "\"a\"", "\"é\"", "\"aé😃\"",
     "\"12\"", "\"a,b\"", "[]", "[1,2,3]", "[\"a\",\"b\"]", "{}", "{\"a\":1,\"b\":2}", ".nokey", ".", "(= . 1)", ".a",
 ];
 pub const INPUTS: &[&str] = &["{\"a\":[1,2],\"b\":\"é\"}", "[3,\"x\",null]", "\"é😃\"", "7"];
@@ -361,6 +361,10 @@ fn part_iv(ctx: &mut Ctx) {
                 let mut all: Vec<Vec<String>> = Vec::new();
                 crate::explore::seqs_exact(ATOMS.len(), ar, |idx| {
                     let args: Vec<&str> = idx.iter().map(|i| ATOMS[*i]).collect();
+                    // a count beyond the property's bound of 10^4 items is resource exhaustion where the count IS the size asked for
+                    if f.name == "range" && args[0] == "9007199254740992" {
+                        return;
+                    }
                     batch.push(format!("({} {})", name, args.join(" ")));
                     if batch.len() == 24 {
                         all.push(std::mem::take(&mut batch));
